@@ -359,6 +359,9 @@ func (w *World) BuildMsgs(a Act) (string, []sdk.Msg, error) {
 			v, _ := sdk.NewIntFromString(asStr(p[1]))
 			hs.List = append(hs.List, &oracletypes.Holder{Address: holderAddr(w.N, asStr(p[0])), Value: v})
 		}
+		if a.Has("nolist") { // a claim without the holders field at all
+			hs = nil
+		}
 		return by, []sdk.Msg{&oracletypes.MsgHoldersClaim{Epoch: a.U("ep"), Holders: hs, Orchestrator: w.N.AddrString(by)}}, nil
 	case "Unjail":
 		v := a.S("val")
